@@ -97,6 +97,7 @@ func NewIPTransport(config Config, a *accessory.Accessory, as ...*accessory.Acce
 	if err != nil {
 		return nil, err
 	}
+	responder = verifResponder(responder)
 
 	ctx, cancel := context.WithCancel(context.Background())
 
